@@ -101,6 +101,43 @@ fn check_oracle(out: &mut Out, acc: &str, obs: &str, expect: Option<usize>, what
     }
 }
 
+/// one access through a caller-defined index type whose accessors answer `r1`, `c1` on the first
+/// call and `r2`, `c2` on later calls
+#[allow(clippy::too_many_arguments)]
+pub fn getacc_one(out: &mut Out, m: &mut Matrix<u32>, order: Order, nr: usize, nc: usize, acc: &str, (r1, r2): (usize, usize), (c1, c2): (usize, usize)) {
+    let s = Scripted { rows: vec![r1, r2], cols: vec![c1, c2], nrow: Cell::new(0), ncol: Cell::new(0) };
+    let op = format!("getacc {acc} {} {nr} {nc} {r1},{r2} {c1},{c2}", ord_ch(order));
+    out.announce(&op);
+    let base = access(m, acc, &s, out, &op);
+    let obs = format!("{base} row={} col={}", s.nrow.get(), s.ncol.get());
+    // oracle: exactly one call each, result exact at the first answers
+    if s.nrow.get() != 1 || s.ncol.get() != 1 {
+        out.oracle_fail(&format!("{op}: accessor called row={} col={} times", s.nrow.get(), s.ncol.get()));
+    }
+    check_oracle(out, acc, &obs, oracle_checked(order, nr, nc, r1, c1), &op);
+    out.count(if r1 != r2 || c1 != c2 { "accessor:inconsistent" } else { "accessor:consistent" });
+    out.observe(&obs);
+}
+
+/// a small fixed set of accesses through inconsistent accessors (used by C01: "every in-bounds
+/// (row, col) resolves to its own element" must hold for every index type)
+pub fn stateful_small(out: &mut Out) {
+    for order in ORDERS {
+        for (nr, nc) in [(2usize, 3usize), (1, 1), (3, 1)] {
+            out.case(&format!("index resolution through caller-defined accessors shape={nr}x{nc} order={}", ord_ch(order)));
+            out.nontrivial();
+            let mut m = mk(order, nr, nc, |k| k as u32);
+            for acc in ACCS {
+                for (r1, r2) in [(0usize, nr), (nr - 1, 0), (0, 0), (nr, 0), (0, usize::MAX)] {
+                    for (c1, c2) in [(0usize, nc), (nc - 1, 0), (0, 0), (nc, 0)] {
+                        getacc_one(out, &mut m, order, nr, nc, acc, (r1, r2), (c1, c2));
+                    }
+                }
+            }
+        }
+    }
+}
+
 pub fn run_c04(out: &mut Out, rng: &mut Rng, tier: Tier) -> String {
     let bound = if tier == Tier::Quick { 4 } else { 5 };
     let mut kind_rot = 0usize;
@@ -160,18 +197,7 @@ pub fn run_c04(out: &mut Out, rng: &mut Rng, tier: Tier) -> String {
                                 }
                                 kind_rot += 1;
                                 let acc = ACCS[kind_rot % 4];
-                                let s = Scripted { rows: vec![r1, r2], cols: vec![c1, c2], nrow: Cell::new(0), ncol: Cell::new(0) };
-                                let op = format!("getacc {acc} {} {nr} {nc} {r1},{r2} {c1},{c2}", ord_ch(order));
-                                out.announce(&op);
-                                let base = access(&mut m, acc, &s, out, &op);
-                                let obs = format!("{base} row={} col={}", s.nrow.get(), s.ncol.get());
-                                // oracle: exactly one call each, result exact at the first answers
-                                if s.nrow.get() != 1 || s.ncol.get() != 1 {
-                                    out.oracle_fail(&format!("{op}: accessor called row={} col={} times", s.nrow.get(), s.ncol.get()));
-                                }
-                                check_oracle(out, acc, &obs, oracle_checked(order, nr, nc, r1, c1), &op);
-                                out.count(if r1 != r2 || c1 != c2 { "accessor:inconsistent" } else { "accessor:consistent" });
-                                out.observe(&obs);
+                                getacc_one(out, &mut m, order, nr, nc, acc, (r1, r2), (c1, c2));
                                 out.nontrivial();
                             }
                         }
